@@ -308,18 +308,56 @@ def poisoned_empty(poison):
         torch.empty, torch.Tensor.new_empty = o_empty, o_new
 
 
+def same_tensor(a, b):
+    """bit-for-bit the same values (NaN equal to NaN), same shape and dtype"""
+    import torch
+    if a.shape != b.shape or a.dtype != b.dtype:
+        return False
+    if a.is_floating_point():
+        return bool(torch.equal(torch.nan_to_num(a, nan=12345.0), torch.nan_to_num(b, nan=12345.0))) and \
+            bool(torch.equal(a.isnan(), b.isnan()))
+    return bool(torch.equal(a, b))
+
+
 class Recorder:
-    def __init__(self, orig):
+    """Observes every call of `ctc_prefix_search_advance`.  The arguments are copied BEFORE the call (what the
+    model replays is what the function was given), compared with the caller's tensors afterwards (the function
+    must not write into its arguments) and the call is made a second time on the copies (a function: same
+    arguments, same answer — no state hidden anywhere between two calls)."""
+    NAMES = ("ext", "nonext", "blank", "nb_prev", "b_prev", "y_prev", "y_prev_last", "y_prev_lens", "prev_is_prefix")
+
+    def __init__(self, orig, twice=True):
         self.orig = orig
         self.calls = []
+        self.twice = twice
+        self.mutated = []       # (call index, argument name)
+        self.unrepeatable = []  # (call index, output position)
 
     def __call__(self, probs_t, width, probs_prev, y_prev, y_prev_last, y_prev_lens, prev_is_prefix):
-        out = self.orig(probs_t, width, probs_prev, y_prev, y_prev_last, y_prev_lens, prev_is_prefix)
+        import torch
         d = lambda x: x.detach().clone()
+        args = (probs_t[0], probs_t[1], probs_t[2], probs_prev[0], probs_prev[1], y_prev, y_prev_last, y_prev_lens,
+                prev_is_prefix)
+        before = [d(x) for x in args]
+        out = self.orig(probs_t, width, probs_prev, y_prev, y_prev_last, y_prev_lens, prev_is_prefix)
+        i = len(self.calls)
+        for name, x, x0 in zip(self.NAMES, args, before):
+            if not same_tensor(x.detach(), x0):
+                self.mutated.append((i, name))
+        flat = (out[0], out[1], out[2], out[3][0], out[3][1], out[4], out[5], out[6])
+        outs = tuple(d(x) for x in flat)
+        if self.twice:
+            c = [d(x) for x in before]
+            with torch.no_grad():
+                o2 = self.orig((c[0], c[1], c[2]), width, (c[3], c[4]), c[5], c[6], c[7], c[8])
+            flat2 = (o2[0], o2[1], o2[2], o2[3][0], o2[3][1], o2[4], o2[5], o2[6])
+            for j, (a, b) in enumerate(zip(outs, flat2)):
+                if not same_tensor(a, b.detach()):
+                    self.unrepeatable.append((i, j))
         self.calls.append({
-            "ext": d(probs_t[0]), "tok": d(probs_t[1]), "blank": d(probs_t[2]), "width": width,
-            "in": (d(y_prev), d(y_prev_last), d(y_prev_lens), d(probs_prev[0]), d(probs_prev[1]), d(prev_is_prefix)),
-            "out": (d(out[0]), d(out[1]), d(out[2]), d(out[3][0]), d(out[3][1]), d(out[4]), d(out[5]), d(out[6])),
+            "ext": before[0], "tok": before[1], "blank": before[2], "width": width,
+            "in": (before[5], before[6], before[7], before[3], before[4], before[8]),
+            "out": outs,
         })
         return out
 
@@ -400,7 +438,18 @@ class C05(PropertyCheck):
             "caller (beams with missing links, slots without a prefix carrying junk, junk last token of the empty "
             "prefix, token buffer taller than the prefixes), 1-3 calls with changing widths. Module options varied "
             "everywhere: memory layout of logits (contiguous / permuted storage / slice of a wider buffer / strided), "
-            "lens None / int64 / int32 / strided, autograd on. T 0..7, V 1..3, width 1..50. non-trivial: width != "
+            "lens None / int64 / int32 / strided, autograd on; (h) THE MODULE AS AN OBJECT: half of the module cases of "
+            "(b), (d), (f) make the observed call on an object that was constructed with OTHER values of width / beta "
+            "(grid 0, 1/10, 1/4, 1/2, 3/4, 1) / valid_mixture / lm (None or another LM), called 0-2 times before (on the "
+            "same input, other values, another T and N, or an input that is rejected), whose public attributes were then "
+            "reassigned one by one in random order to the case's values (optionally a call after every single "
+            "reassignment), train() / eval() toggles, reset_parameters(), optionally a deepcopy of the object: the "
+            "observed call goes through the whole check (Lean model + specification with the CURRENT values), every call "
+            "on the way and the observed call must equal the same call on a module constructed at that moment with the "
+            "object's current values, the same call made twice must give one answer, ctc_prefix_search_advance is called "
+            "twice with copies of its arguments (one answer), no call may write into its caller's tensors (logits, lens, "
+            "initial LM state, the arguments of the step function); width 1 (beam never widens) over-sampled with a "
+            "fused LM. T 0..7, V 1..3, width 1..50. non-trivial: width != "
             "number of live candidates at some frame; distinct by the case JSON. "
             "(CTCPrefixSearch / ctc_prefix_search_advance have no blank-index or batch_first option: blank is index V, "
             "logits are (T, N, V+1).)")
@@ -413,6 +462,12 @@ class C05(PropertyCheck):
         "in several state layouts); its state handling contract (extract_by_src / mix_by_mask) is exercised — the state "
         "every slot is given at every call is compared with the Lean model's routing — the LM itself is not verified",
         "cells left uninitialised by torch.empty are poisoned with two different values (inside / isolated run)",
+        "fusion formula: the LM factor (softmax / exp(beta*log_softmax) of the harness LM's scores) is torch's; the Lean "
+        "model's lmExt / fuse combines it with the token / blank probabilities and the mixture weight the module carries "
+        "AT THE TIME OF THE CALL, and must reproduce ext_probs_t of every real slot (2e-5 / 1e-10)",
+        "object life cycle: the harness LMs keep no state inside the LM object (all state travels in the `prev` "
+        "dictionaries), so a module constructed at any moment with the live object's values and the same LM object is a "
+        "legitimate reference for the live object's call; results are compared bit for bit (same torch, same input)",
         "true mass by enumeration of all alignments only while (V+1)^T <= 4200 (all streams except the rare longest "
         "history runs with V=3); the prefix-beam recursion oracle is evaluated for every case",
     ]
@@ -469,11 +524,54 @@ class C05(PropertyCheck):
                 case["prev_empty"] = True
         for k in [k for k, v in case.items() if v is None and k in ("layout",)]:
             del case[k]
+        if rng.random() < 0.5:
+            case["life"] = self.gen_life(rng, case)
         return case
+
+    # ---- the module as an OBJECT: constructed with other values, used, public attributes reassigned
+    BETAS = ["0", "1/10", "1/4", "1/2", "3/4", "1"]
+
+    def gen_life(self, rng, case):
+        """A life of the module object before the observed call (see `live_module`): which attributes had
+        another value at construction, how often and on what the object was called before, in which order the
+        attributes are reassigned to the case's values, train() / eval() toggles, reset_parameters(), deepcopy."""
+        lm = case.get("lm")
+        cur_beta = lm["beta"] if lm else "1/5"
+        ctor = {}
+        if rng.random() < 0.6:
+            ctor["beta"] = rng.choice([b for b in self.BETAS if b != cur_beta])
+        if rng.random() < 0.4:
+            ctor["width"] = rng.choice([w for w in (1, 2, 3, 4, 6, 9, 20) if w != case["width"]])
+        if rng.random() < 0.4:
+            ctor["valid"] = not bool(lm and lm["valid"])
+        if rng.random() < 0.4:
+            if lm is not None and rng.random() < 0.4:
+                ctor["lm"] = None
+            else:
+                other = {"seed": rng.randrange(1000), "zeros": rng.random() < 0.3,
+                         "kind": rng.choice(["hash", "shapes", "hist", "fusion"])}
+                if other["kind"] == "fusion":
+                    other["second"], other["inner"] = rng.choice(["shapes", "hist"]), "1/2"
+                ctor["lm"] = other
+        if not ctor:
+            ctor["beta"] = rng.choice([b for b in self.BETAS if b != cur_beta])
+        order = list(ctor)
+        rng.shuffle(order)
+        life = {"ctor": ctor, "order": order, "warm": rng.choice([0, 1, 1, 2]),
+                "warm_input": rng.choice(["same", "same", "values", "shape", "raises"])}
+        if len(order) > 1 and rng.random() < 0.5:
+            life["between"] = True
+        if rng.random() < 0.3:
+            life["mode"] = rng.choice([["eval"], ["train"], ["eval", "train"], ["train", "eval"]])
+        if rng.random() < 0.1:
+            life["reset"] = True
+        if rng.random() < 0.12:
+            life["via"] = "deepcopy"
+        return life
 
     def gen_lm(self, rng, N):
         kind = rng.choice(["hash", "hash", "shapes", "hist", "fusion"])
-        lm = {"beta": rng.choice(["0", "1/4", "1/2", "1"]), "valid": rng.random() < 0.5,
+        lm = {"beta": rng.choice(["0", "1/4", "1/2", "1", "3/4", "1/10"]), "valid": rng.random() < 0.5,
               "seed": rng.randrange(1000), "zeros": rng.random() < 0.3, "kind": kind}
         if kind == "fusion":
             lm["second"] = rng.choice(["shapes", "hist"])
@@ -687,7 +785,10 @@ class C05(PropertyCheck):
             lm = None
             if rng.random() < 0.6 and T <= 4:
                 lm = self.gen_lm(rng, N)
-            yield self.vary_module(rng, {"kind": "module", "stream": "tol", "V": V, "width": self.pick_width(rng, V, T),
+            width = self.pick_width(rng, V, T)
+            if lm is not None and rng.random() < 0.2:
+                width = 1       # boundary: the beam never widens (prev_width == width from the first frame on)
+            yield self.vary_module(rng, {"kind": "module", "stream": "tol", "V": V, "width": width,
                                          "dtype": dtype, "logits": logits, "N": N, "lens": self.gen_lens(rng, N, T),
                                          "lm": lm})
 
@@ -760,13 +861,22 @@ class C05(PropertyCheck):
                 logits.requires_grad_(True)
             beta = Fraction(lm_spec["beta"]) if lm_spec else Fraction(1, 5)
             beta = int(beta) if (case.get("beta_int") and beta.denominator == 1) else float(beta)
-            search = CTCPrefixSearch(width, beta, lm, bool(lm_spec and lm_spec["valid"]))
             h0s = (lm_spec or {}).get("init")
-            extra = ()
-            if h0s is not None:
-                extra = (lm_initial_state(lm_spec, h0s),)
-            elif case.get("prev_empty"):
-                extra = ({},)
+
+            def make_extra():
+                if h0s is not None:
+                    return (lm_initial_state(lm_spec, h0s),)
+                if case.get("prev_empty"):
+                    return ({},)
+                return ()
+
+            # the module object: constructed, used and re-configured as `case["life"]` says; every call on the
+            # way is compared with a freshly constructed module carrying the same attribute values
+            final = {"width": width, "beta": beta, "valid": bool(lm_spec and lm_spec["valid"]), "lm": lm}
+            search, obj = self.live_module(case, final, dtype, logits, lens, make_extra)
+            extra = make_extra()
+            keep = (logits.detach().clone(), None if lens is None else lens.clone(),
+                    [{k: v.clone() for k, v in e.items()} for e in extra])
             saved = _decoding.ctc_prefix_search_advance
             _decoding.ctc_prefix_search_advance = rec
             global STATE_LOG
@@ -777,6 +887,25 @@ class C05(PropertyCheck):
             finally:
                 _decoding.ctc_prefix_search_advance = saved
                 state_log, STATE_LOG = STATE_LOG, None
+            # the caller's tensors are not written to
+            if not same_tensor(logits.detach(), keep[0]):
+                obj["mutated"].append("logits")
+            if lens is not None and not same_tensor(lens, keep[1]):
+                obj["mutated"].append("lens")
+            for e, e0 in zip(extra, keep[2]):
+                if sorted(e) != sorted(e0) or any(not same_tensor(e[k], e0[k]) for k in e0):
+                    obj["mutated"].append("initial LM state")
+            obj["mutated"] += [f"{name} (call {i} of ctc_prefix_search_advance)" for i, name in rec.mutated]
+            obj["unrepeatable"] = [f"output {j} of call {i} of ctc_prefix_search_advance" for i, j in rec.unrepeatable]
+            if y.dim() == 3 and probs.dim() == 2:
+                with poisoned_empty(V + 3), torch.no_grad():
+                    # the same call once more on the same object, and on a module constructed just now
+                    again = search(logits.detach(), lens, *make_extra())
+                    fresh = CTCPrefixSearch(final["width"], final["beta"], final["lm"], final["valid"])
+                    fresh.train(search.training)
+                    anew = fresh(logits.detach(), lens, *make_extra())
+                obj["repeat"] = self.result_diff((y, y_lens, probs), again)
+                obj["fresh"] = self.result_diff((y, y_lens, probs), anew)
             y, y_lens, probs = y.detach(), y_lens.detach(), probs.detach()
             lens_l = [T] * N if case["lens"] is None else list(case["lens"])
             if y.shape[1:] != (N, width) or y_lens.shape != (N, width) or probs.shape != (N, width):
@@ -801,7 +930,7 @@ class C05(PropertyCheck):
                         Kp = c["in"][3].size(1)
                         el["lm_states"].append([int(x) for x in hl[n * Kp:(n + 1) * Kp].tolist()])
                 elements.append(el)
-            obs = {"elements": elements}
+            obs = {"elements": elements, "object": obj}
             self.attach_lm_tables(case, obs, rec.calls, lens_l, dtype)
         else:
             frames = case["frames"]
@@ -853,13 +982,113 @@ class C05(PropertyCheck):
             el["alone"] = None
             if case["ext_seed"] is not None:
                 el["ext_table"] = tables
-            obs = {"elements": [el]}
+            obs = {"elements": [el], "object": {
+                "calls": len(rec.calls), "dev": [],
+                "mutated": [f"{name} (call {i})" for i, name in rec.mutated],
+                "unrepeatable": [f"output {j} of call {i}" for i, j in rec.unrepeatable]}}
         self._cache = {"key": self.key(case), "obs": obs}
         return self.public_obs(obs)
 
     @staticmethod
     def public_obs(obs):
         return obs
+
+    # ---- one module object, several calls, public attributes reassigned in between
+    @staticmethod
+    def result_diff(a, b):
+        """first difference between two results of the module (bit for bit; the tokens of slots that report
+        -inf are not specified), None if there is none"""
+        ya, la, pa = (x.detach() for x in a)
+        yb, lb, pb = (x.detach() for x in b)
+        if pa.shape != pb.shape or la.shape != lb.shape or ya.shape[1:] != yb.shape[1:]:
+            return f"shapes {list(ya.shape)},{list(pa.shape)} vs {list(yb.shape)},{list(pb.shape)}"
+        N, K = pa.shape
+        for n in range(N):
+            for k in range(K):
+                x, z = float(pa[n, k]), float(pb[n, k])
+                if x == NEG and z == NEG:
+                    continue
+                pra = [int(t) for t in ya[: int(la[n, k]), n, k].tolist()]
+                prb = [int(t) for t in yb[: int(lb[n, k]), n, k].tolist()]
+                if frac_str(x) != frac_str(z) or pra != prb:
+                    return f"n={n} slot {k}: {pra} with {x!r} vs {prb} with {z!r}"
+        return None
+
+    def live_module(self, case, final, dtype, logits, lens, make_extra):
+        """The object the observed call is made on.  Without `case["life"]`: a module constructed with the
+        case's values.  With it: a module constructed with OTHER values (`ctor`), called `warm` times, then
+        its public attributes (`width`, `beta`, `valid_mixture`, `lm`) reassigned one by one to the case's
+        values (in the order `order`; `between`: a call after every single reassignment), train() / eval()
+        toggles, `reset_parameters()`, optionally a deepcopy of the object.  Every call on the way is made on a
+        module constructed at that moment with the object's current values as well; the two must agree."""
+        import copy
+        import torch
+        from pydrobert.torch.modules import CTCPrefixSearch
+        V = case["V"]
+        life = case.get("life") or {}
+        ctor = life.get("ctor") or {}
+        cur = dict(final)
+        if "width" in ctor:
+            cur["width"] = ctor["width"]
+        if "beta" in ctor:
+            cur["beta"] = float(Fraction(ctor["beta"]))
+        if "valid" in ctor:
+            cur["valid"] = bool(ctor["valid"])
+        if "lm" in ctor:
+            cur["lm"] = None if ctor["lm"] is None else make_lm(V, ctor["lm"], dtype)
+        search = CTCPrefixSearch(cur["width"], cur["beta"], cur["lm"], cur["valid"])
+        obj = {"calls": 0, "dev": [], "mutated": [], "unrepeatable": [], "repeat": None, "fresh": None}
+        if not life:
+            return search, obj
+        lg = logits.detach()
+
+        def describe():
+            return (f"width={cur['width']} beta={cur['beta']!r} valid_mixture={cur['valid']} "
+                    f"lm={'None' if cur['lm'] is None else 'final' if cur['lm'] is final['lm'] else 'other'}")
+
+        def probe(where, which):
+            T, N = lg.size(0), lg.size(1)
+            if which == "values":        # same shapes, other numbers
+                args = lambda: (lg.flip(0).roll(1, 2), lens)
+            elif which == "shape":       # other T and N
+                base = torch.arange((T + 1) * (N + 1) * (V + 1), dtype=lg.dtype).view(T + 1, N + 1, V + 1)
+                args = lambda: ((base * 0.7).sin() * 2, None)
+            elif which == "raises":      # a call that is rejected leaves nothing behind
+                try:
+                    with torch.no_grad():
+                        search(lg[:, 0], lens)
+                except Exception:
+                    pass
+                return
+            else:                        # the very input of the observed call
+                ex = make_extra if cur["lm"] is final["lm"] else (lambda: ())
+                args = lambda: (lg, lens) + ex()
+            obj["calls"] += 1
+            with poisoned_empty(V + 3), torch.no_grad():
+                a = search(*args())
+                fresh = CTCPrefixSearch(cur["width"], cur["beta"], cur["lm"], cur["valid"])
+                fresh.train(search.training)
+                b = fresh(*args())
+            d = self.result_diff(a, b)
+            if d is not None:
+                obj["dev"].append(f"{where} ({which} input; object now has {describe()}): object vs fresh module: {d}")
+
+        for i in range(life.get("warm", 0)):
+            probe(f"call {i} after construction", life.get("warm_input", "same"))
+        for name in life.get("order") or sorted(ctor):
+            if name not in ctor:
+                continue
+            cur[name] = final[name]
+            setattr(search, "valid_mixture" if name == "valid" else name, final[name])
+            if life.get("between"):
+                probe(f"call after `{name}` was reassigned", "same")
+        for m in life.get("mode") or []:
+            search.train() if m == "train" else search.eval()
+        if life.get("reset"):
+            search.reset_parameters()
+        if life.get("via") == "deepcopy":
+            search = copy.deepcopy(search)
+        return search, obj
 
     @staticmethod
     def result_obs(y, y_lens, probs, n):
@@ -904,20 +1133,28 @@ class C05(PropertyCheck):
 
         h0s = lm_spec.get("init")
 
-        def fused(tok, blank, prefix, n):
+        def factor(prefix, n):
+            """the LM factor of the fusion formula: the part that needs a transcendental function"""
             lg = torch.tensor(lm_row(lm_spec, V, prefix, 1 if h0s is None else h0s[n]), dtype=dtype)
             if lm_spec["valid"]:
-                return (1.0 - beta) * tok + beta * lg.softmax(-1) * (1 - blank)
-            return (beta * lg.log_softmax(-1)).exp() * tok
+                return lg.softmax(-1)
+            return (beta * lg.log_softmax(-1)).exp()
+
+        def fused(tok, blank, prefix, n):
+            if lm_spec["valid"]:
+                return (1.0 - beta) * tok + beta * factor(prefix, n) * (1 - blank)
+            return factor(prefix, n) * tok
 
         for n, el in enumerate(obs["elements"]):
-            tables, dev = [], []
+            tables, dev, factors = [], [], []
             for t, c in enumerate(calls[: lens_l[n]]):
                 tok, blank = c["tok"][n], c["blank"][n]
-                tab = {}
+                tab, ftab = {}, []
                 for L in range(t + 1):
                     for p in itertools.product(range(V), repeat=L):
                         tab[p] = [Fraction(float(x)) for x in fused(tok, blank, p, n).tolist()]
+                        ftab.append([list(p), [frac_str(x) for x in factor(p, n).tolist()]])
+                factors.append(ftab)
                 st = el["steps"][t]["in"]
                 for k, p in enumerate(st["prefixes"]):
                     if isinstance(tot_of(st, k), str):
@@ -932,6 +1169,10 @@ class C05(PropertyCheck):
                 tables.append([[list(p), [frac_str(x) for x in row]] for p, row in tab.items()])
             el["ext_table"] = tables
             el["ext_dev"] = dev
+            # for the Lean model of the fusion (`lmExt` / `fuse`): the LM factors and the mixture weight the
+            # module carries at the time of the call (None: plain fusion)
+            el["lm_factor"] = factors
+            el["mix"] = frac_str(Fraction(beta)) if lm_spec["valid"] else None
 
     # ------------------------------------------------------------------ model
     def model_request(self, case):
@@ -965,6 +1206,8 @@ class C05(PropertyCheck):
             e["mass"] = self.wants_mass(case, el)
             if el.get("lm_states") is not None:
                 e["lm_h0"] = el["lm_h0"]
+            if el.get("lm_factor") is not None:
+                e["lm_factor"], e["mix"] = el["lm_factor"], el["mix"]
             els.append(e)
         return {"op": "c05.case", "case": {"fix": not PINNED_MODEL, "V": case["V"], "width": case["width"],
                                            "elements": els}}
@@ -1006,6 +1249,21 @@ class C05(PropertyCheck):
                                    f"candidate totals (violation {float(viol):.3g})")
                 if out:
                     return out[:6]
+            if a.get("lm_factor") is not None and mm.get("lm_ext") is not None:
+                # what the module handed to the step function as `ext_probs_t` vs. the Lean model of the fusion
+                # (`lmExt`: fuse(mix = the module's current beta / None, LM factor, tok, blank)) on real slots
+                tl = TOL[case["dtype"]]
+                for t, (sa, em) in enumerate(zip(a["steps"], mm["lm_ext"])):
+                    st = sa["in"]
+                    for k in range(len(st["nb"])):
+                        if isinstance(tot_of(st, k), str) or k >= len(em):
+                            continue
+                        if any(not close(F(x), F(y), tl) for x, y in zip(sa["ext"][k], em[k])):
+                            out.append(f"n={n} t={t} slot {k} (prefix {st['prefixes'][k]}): ext_probs_t impl={sa['ext'][k]} "
+                                       f"model(lmExt, mix={a['mix']})={em[k]}")
+                            break
+                    if out:
+                        break
             if a.get("lm_states") is not None and mm.get("lm_states") is not None:
                 for t, (ha, hm) in enumerate(zip(a["lm_states"], mm["lm_states"])):
                     if ha != hm:
@@ -1028,12 +1286,25 @@ class C05(PropertyCheck):
             return [(f"implementation raised {impl['error']}: {impl.get('message')}", "C05.raises")]
         if "shape_error" in impl:
             return [(f"result shapes {impl['shape_error']}", "C05.shape")]
+        fails = []
+        ob = impl.get("object") or {}
+        for d in (ob.get("dev") or [])[:2]:
+            fails.append((d, "C05.object_state"))
+        if ob.get("fresh"):
+            fails.append(("the observed call on the re-configured object differs from the same call on a freshly "
+                          "constructed module with the same attribute values: " + ob["fresh"], "C05.object_state"))
+        if ob.get("repeat"):
+            fails.append(("the same call made twice on the same object gives two answers: " + ob["repeat"], "C05.repeat"))
+        if ob.get("unrepeatable"):
+            fails.append(("ctc_prefix_search_advance called twice with the same arguments gives two answers: "
+                          + ob["unrepeatable"][0], "C05.repeat"))
+        if ob.get("mutated"):
+            fails.append(("the call wrote into its caller's tensor: " + ob["mutated"][0], "C05.input_mutated"))
         V = case["V"]
         widths = case.get("widths") or None
         width = widths[-1] if widths else case["width"]       # slots of the result
         S0 = case["init"]["tm1"] if case.get("init") else 0
         tol = 0 if case["stream"] == "exact" else TOL[case["dtype"]]
-        fails = []
         zero_probs = any(F(x) == 0 for el in impl["elements"] for s in el["steps"] for x in s["tok"] + [s["blank"]])
         for n, el in enumerate(impl["elements"]):
             res = el["result"]
@@ -1103,6 +1374,17 @@ class C05(PropertyCheck):
                     if len(ra) != len(rb) or any(x[0] != y[0] or not close(x[1], y[1], tol) for x, y in zip(ra, rb)):
                         fails.append((f"n={n}: result differs from searching the element's own frames alone: "
                                       f"batched={rb[:6]} alone={ra[:6]}", "C05.batch"))
+            lmc = case.get("lm")
+            if case["kind"] == "module" and (lmc is None or Fraction(lmc["beta"]) == 0):
+                # no language model (or weight 0) on the object NOW: extension scores are the token probabilities
+                for t, s in enumerate(el["steps"][: el["len"]]):
+                    badk = [k for k in range(len(s["in"]["nb"])) if not isinstance(tot_of(s["in"], k), str)
+                            and s["ext"][k] != s["tok"]]
+                    if badk:
+                        fails.append((f"n={n}: the module has {'no language model' if lmc is None else 'beta = 0'} but the "
+                                      f"extension probabilities of slot {badk[0]} at frame {t} are {s['ext'][badk[0]]}, "
+                                      f"not the token probabilities {s['tok']}", "C05.fusion.ext_mismatch"))
+                        break
             if el.get("ext_dev"):
                 d = el["ext_dev"][0]
                 fails.append((f"n={n}: extension probabilities handed to the step function for slot {d['slot']} "
@@ -1200,6 +1482,24 @@ class C05(PropertyCheck):
             t.append("autograd-on")
         if case.get("beta_int"):
             t.append("beta-as-int")
+        if case["kind"] == "module":
+            life = case.get("life")
+            if not life:
+                t.append("object:fresh")
+            else:
+                t.append("object:re-configured")
+                for k, v in sorted(life["ctor"].items()):
+                    t.append(f"object:{k} reassigned" + ((" (was None)" if v is None else " (was another LM)") if k == "lm" else ""))
+                t.append(f"object:calls before={life.get('warm', 0)}" +
+                         (f" input={life.get('warm_input', 'same')}" if life.get("warm") else ""))
+                if life.get("between"):
+                    t.append("object:call after every reassignment")
+                if life.get("mode"):
+                    t.append("object:mode=" + ">".join(life["mode"]))
+                if life.get("reset"):
+                    t.append("object:reset_parameters")
+                if life.get("via"):
+                    t.append("object:" + life["via"])
         if "elements" in impl:
             T = max([len(el["steps"]) for el in impl["elements"]] + [0])
             t.append(f"T={T}")
@@ -1235,11 +1535,24 @@ class C05(PropertyCheck):
     def shrink(self, case):
         if case.get("expect_error"):
             return
-        for fld in ("layout", "lens_layout", "lens_dtype", "grad", "beta_int", "prev_empty"):
+        for fld in ("layout", "lens_layout", "lens_dtype", "grad", "beta_int", "prev_empty", "life"):
             if case.get(fld):
                 c = dict(case)
                 del c[fld]
                 yield c
+        life = case.get("life")
+        if life:
+            for fld in ("via", "reset", "mode", "between"):
+                if life.get(fld):
+                    yield dict(case, life={k: v for k, v in life.items() if k != fld})
+            if life.get("warm"):
+                yield dict(case, life=dict(life, warm=life["warm"] - 1))
+            if life.get("warm") and life.get("warm_input", "same") != "same":
+                yield dict(case, life=dict(life, warm_input="same"))
+            if len(life["ctor"]) > 1:
+                for k in life["ctor"]:
+                    yield dict(case, life=dict(life, ctor={a: b for a, b in life["ctor"].items() if a != k},
+                                               order=[a for a in life.get("order", []) if a != k]))
         if case.get("lm") and case["lm"].get("init") is not None:
             yield dict(case, lm=dict(case["lm"], init=None))
         if case.get("lm") and case["lm"].get("kind", "hash") != "hash":
